@@ -345,6 +345,7 @@ def known_bits(t):
 # ring form.  poly: dict monomial(tuple of atom ids, sorted) -> coeff ; atoms by id
 
 _ATOM = {}
+RING_EXPAND_LIMIT = 6
 
 
 def _atom_reg(a):
@@ -357,6 +358,8 @@ def to_poly(t):
     if t.op == "const":
         return {(): t.aux} if t.aux else {}
     if t.op == "ring":
+        if len(t.aux) > RING_EXPAND_LIMIT:
+            return {(_atom_reg(t),): 1}  # large sums are shared, not re-expanded (keeps recurrences linear-size)
         return dict(t.aux)
     if t.op == "aff":
         d = _aff_as_disjoint(t)
